@@ -28,10 +28,11 @@ type vec struct {
 	Restart    int `json:",omitempty"` // the process restarts after that many committed blocks (0 = never)
 	Sim        int `json:",omitempty"` // 1: every transaction is first run through the gas-estimation entry point
 	GC         int `json:",omitempty"` // 1: the garbage collector runs before every transaction
+	Procs      int `json:",omitempty"` // > 0: the node has that many CPUs (GOMAXPROCS)
 }
 
 func (v vec) String() string {
-	return fmt.Sprintf("clock=%d rng=%d zone=%d restart=%d simulate=%d gc=%d maps=%v", v.Clock, v.Rng, v.Zone, v.Restart, v.Sim, v.GC, v.Maps)
+	return fmt.Sprintf("clock=%d rng=%d zone=%d restart=%d simulate=%d gc=%d cpus=%d maps=%v", v.Clock, v.Rng, v.Zone, v.Restart, v.Sim, v.GC, v.Procs, v.Maps)
 }
 
 func execute(h scen.C06History, v vec) (obs []string, pts []verifrt.Point, err error) {
@@ -42,6 +43,10 @@ func execute(h scen.C06History, v vec) (obs []string, pts []verifrt.Point, err e
 	}()
 	verifrt.Reset(v.Clock, v.Rng, v.Maps)
 	verifrt.SetZone(v.Zone)
+	if v.Procs > 0 {
+		old := runtime.GOMAXPROCS(v.Procs)
+		defer runtime.GOMAXPROCS(old)
+	}
 	w := world.New(h.Sc.Config())
 	e := w.NewEnvB()
 	e.RestartAfter, e.Simulate, e.GCBeforeTx = v.Restart, v.Sim == 1, v.GC == 1
@@ -111,7 +116,7 @@ func checkHistory(h scen.C06History, bound int, out *shardOut) {
 		out.Sites[s]++
 	}
 	var vecs []vec
-	vecs = append(vecs, vec{Clock: 1}, vec{Rng: 1}, vec{Zone: 1}, vec{Sim: 1}, vec{GC: 1})
+	vecs = append(vecs, vec{Clock: 1}, vec{Rng: 1}, vec{Zone: 1}, vec{Sim: 1}, vec{GC: 1}, vec{Procs: 1}, vec{Procs: 2})
 	commits := 0
 	for _, l := range base {
 		if strings.HasPrefix(l, "apphash ") {
@@ -174,6 +179,8 @@ func checkHistory(h scen.C06History, bound int, out *shardOut) {
 				dep = "process-memory-left-by-a-simulated-transaction"
 			} else if v.GC == 1 && len(v.Maps) == 0 && v.Clock == 0 && v.Rng == 0 && v.Zone == 0 && v.Restart == 0 && v.Sim == 0 {
 				dep = "garbage-collection-timing"
+			} else if v.Procs > 0 && len(v.Maps) == 0 && v.Clock == 0 && v.Rng == 0 && v.Zone == 0 && v.Restart == 0 && v.Sim == 0 && v.GC == 0 {
+				dep = "number-of-cpus"
 			}
 			out.Viols = append(out.Viols, mc.Record{Property: "C06", Scenario: h.Sc.Name(), Kind: "c06", Clause: "identical-results-on-independent-executions",
 				Signature: "identical-results-on-independent-executions:" + what + " depends-on=" + dep,
@@ -211,7 +218,7 @@ func main() {
 		hs := scen.C06Histories(tier)
 		skipped := scen.C06Skipped
 		so := &shardOut{Sites: map[string]int{}}
-		deadline := time.Now().Add(70 * time.Second)
+		deadline := time.Now().Add(110 * time.Second)
 		if tier == "thorough" {
 			deadline = time.Now().Add(25 * time.Minute)
 		}
@@ -309,7 +316,7 @@ func main() {
 		if tier == "thorough" {
 			bound = 2
 		}
-		r.Rules = append(r.Rules, fmt.Sprintf("for every history (all search-tree paths of the C06/mix scenario to suffix depth %d extended to a reward block, plus search-tree paths of the C17, C01, C09, C10, C18, C14, C07 scenarios): one execution of the real ABCI pipeline on a fresh node per choice vector with <= %d deviations from the default (every permutation of every map iteration reached, two wall-clock bases, two initial RNG seeds, two host time zones: UTC and one with daylight saving, a restart of the process after each committed block, every transaction first simulated on the node, the garbage collector run before every transaction); states = histories, transitions = executions; a history is non-trivial if its default execution is reproducible", map[string]int{"quick": 2, "thorough": 3}[tier], bound))
+		r.Rules = append(r.Rules, fmt.Sprintf("for every history (all search-tree paths of the C06/mix scenario to suffix depth %d extended to a reward block, plus search-tree paths of the C17, C01, C09, C10, C18, C14, C07 scenarios): one execution of the real ABCI pipeline on a fresh node per choice vector with <= %d deviations from the default (every permutation of every map iteration reached, two wall-clock bases, two initial RNG seeds, two host time zones: UTC and one with daylight saving, a restart of the process after each committed block, every transaction first simulated on the node, the garbage collector run before every transaction, 1 or 2 CPUs instead of all); states = histories, transitions = executions; a history is non-trivial if its default execution is reproducible", map[string]int{"quick": 2, "thorough": 3}[tier], bound))
 		r.Assumptions = append(r.Assumptions, "nondeterminism sources are those the seamgen inventory finds in x/, app/, wasmbinding/, types/ (map ranges, time.Now, tendermint rand.NewRand); go statements/select: none outside generated gateway code", "SDK, Tendermint and wasmvm internals are taken as deterministic")
 		for i, s := range total.Samples {
 			if i < 4 {
